@@ -146,49 +146,57 @@ def findLoop (gs : GS) (label : Option String) : Option Nat :=
   | none => gs.loopstack.head?
   | some l => gs.loopstack.find? (fun id => (gs.loops.getD id {}).label == some l)
 
+/-- `formalsBind` (generator.go, fix C03-01): `f`, the lazy `#f`, the typed `f:`. -/
+def formalsBind (x : String) (ps : List String) : Bool :=
+  ps.any (fun p => p == x || p == "#" ++ x || p == x ++ ":")
+
+/-- `assignsIn`: `x = v` / `x := v` among the elements of a list or array (only symbols
+between the name and the operator). -/
+def assignsIn (x : String) : Bool → List Expr → Bool
+  | _, [] => false
+  | seen, .sym y :: rest =>
+    if y == "=" || y == ":=" then (seen || assignsIn x seen rest)
+    else assignsIn x (seen || y == x) rest
+  | _, _ :: rest => assignsIn x false rest
+
 mutual
-/-- `mentionsOutsideCallHead` (generator.go, fix C03-01): does the symbol `x` occur in the
-form other than as the head of a call — as a value, a parameter, the target of
-`let`/`def`/`defn`/`set`? (Go walks the raw s-expression; on the elaborated form the same
-positions are: every symbol leaf except call heads, and every binder. A loop label counts
-when it is written without its colon; the elaborated form does not keep the colon, so a
-label equal to the function's name counts here either way.) -/
-def mentions (x : String) : Expr → Bool
-  | .int _ | .bool _ | .str _ | .nilLit | .bad _ => false
-  | .sym y => y == x
-  | .arr es => mentionsList x es
-  | .call (.sym _) args => mentionsList x args
-  | .call f args => mentions x f || mentionsList x args
-  | .begin_ es => mentionsList x es
-  | .def_ y e => y == x || mentions x e
-  | .set_ y e => y == x || mentions x e
-  | .cond arms d => mentionsArms x arms || mentions x d
-  | .and_ es => mentionsList x es
-  | .or_ es => mentionsList x es
-  | .let_ _ bs body => mentionsBinds x bs || mentionsList x body
-  | .newScope es => mentionsList x es
-  | .for_ l i t s body => l == some x || mentions x i || mentions x t || mentions x s || mentionsList x body
-  | .break_ l => l == some x
-  | .continue_ l => l == some x
-  | .fn ps rest body => ps.contains x || rest == some x || mentionsList x body
-  | .defn n ps rest body => n == x || ps.contains x || rest == some x || mentionsList x body
-  | .assign l r => mentions x l || mentions x r
-def mentionsList (x : String) : List Expr → Bool
+/-- `bindsName` (generator.go, fix C03-01): does the form bind or assign the symbol `x` —
+as the target of `let`/`letseq`/`def`/`defn`/`set`/`=`/`:=` or as a parameter of a nested
+function? A use of `x` as a value does not count. (Go walks the raw s-expression; these
+are the same positions on the elaborated form. `mdef`, `defmac`, `range`, `func` are
+outside the core language.) -/
+def binds (x : String) : Expr → Bool
+  | .int _ | .bool _ | .str _ | .nilLit | .bad _ | .sym _ | .break_ _ | .continue_ _ => false
+  | .arr es => assignsIn x false es || bindsList x es
+  | .call f args => assignsIn x false (f :: args) || binds x f || bindsList x args
+  | .begin_ es => bindsList x es
+  | .def_ y e => y == x || binds x e
+  | .set_ y e => y == x || binds x e
+  | .cond arms d => bindsArms x arms || binds x d
+  | .and_ es => bindsList x es
+  | .or_ es => bindsList x es
+  | .let_ _ bs body => bindsBinds x bs || bindsList x body
+  | .newScope es => bindsList x es
+  | .for_ _ i t s body => binds x i || binds x t || binds x s || bindsList x body
+  | .fn ps rest body => formalsBind x (ps ++ rest.toList) || bindsList x body
+  | .defn n ps rest body => n == x || formalsBind x (ps ++ rest.toList) || bindsList x body
+  | .assign l r => binds x l || binds x r
+def bindsList (x : String) : List Expr → Bool
   | [] => false
-  | e :: es => mentions x e || mentionsList x es
-def mentionsArms (x : String) : List (Expr × Expr) → Bool
+  | e :: es => binds x e || bindsList x es
+def bindsArms (x : String) : List (Expr × Expr) → Bool
   | [] => false
-  | (p, b) :: r => mentions x p || mentions x b || mentionsArms x r
-def mentionsBinds (x : String) : List (String × Expr) → Bool
+  | (p, b) :: r => binds x p || binds x b || bindsArms x r
+def bindsBinds (x : String) : List (String × Expr) → Bool
   | [] => false
-  | (y, e) :: r => y == x || mentions x e || mentionsBinds x r
+  | (y, e) :: r => y == x || binds x e || bindsBinds x r
 end
 
-/-- `rebindsOwnName` (fix C03-01): the function's name occurs in its formals or body other
-than as a call head; `buildSexpFun` then clears `gen.funcname`, so no call in the body is
-compiled as a self tail call. -/
+/-- `rebindsOwnName` (fix C03-01): the function binds or assigns its own name — as a
+parameter, or somewhere in its body; `buildSexpFun` then clears `gen.funcname`, so no call in
+the body is compiled as a self tail call. Using the name as a value keeps the jump. -/
 def rebindsOwnName (name : String) (ps : List String) (rest : Option String) (body : List Expr) : Bool :=
-  !name.isEmpty && (ps.contains name || rest == some name || mentionsList name body)
+  !name.isEmpty && (formalsBind name (ps ++ rest.toList) || bindsList name body)
 
 /-- `buildSexpFun`, first half: the template is registered (for `knownFunctions`) before
 the body is compiled. Returns the template index and the context for the body.
